@@ -12,6 +12,9 @@ fn usage() -> ! {
 }
 
 fn main() {
+    if let Ok(p) = std::env::var("VERIF_C15_CHILD") {
+        std::process::exit(vlib::props::c15::child_main(&p));
+    }
     let args: Vec<String> = std::env::args().skip(1).collect();
     if args.is_empty() {
         usage();
